@@ -119,7 +119,10 @@ Qed.
 Definition sn (z : Z) : Z := if Z.gtb z 0 then z - 1 else z.
 
 Lemma iter_succ_r {A} (f : A -> A) n x : Nat.iter (S n) f x = Nat.iter n f (f x).
-Proof. induction n as [|n IH]; [reflexivity|]. cbn [Nat.iter] in *. now rewrite IH. Qed.
+Proof.
+  induction n as [|n IH]; [reflexivity|].
+  change (f (Nat.iter (S n) f x) = f (Nat.iter n f (f x))). f_equal. exact IH.
+Qed.
 
 Lemma sn_iter_zero n z : 0 <= z <= Z.of_nat n -> Nat.iter n sn z = 0.
 Proof.
@@ -130,7 +133,8 @@ Qed.
 
 Lemma sn_iter_nonpos n z : z <= 0 -> Nat.iter n sn z = z.
 Proof.
-  intros Hz. induction n as [|n IH]; [reflexivity|]. cbn [Nat.iter]. rewrite IH. unfold sn.
+  intros Hz. induction n as [|n IH]; [reflexivity|].
+  change (sn (Nat.iter n sn z) = z). rewrite IH. unfold sn.
   destruct (Z.gtb_spec z 0); lia.
 Qed.
 
